@@ -68,6 +68,11 @@ func runSplit(c *hx.Ctx, in *splitIn) {
 	if err != nil {
 		panic(err)
 	}
+	gp, err := w.GlobalParam()
+	if err != nil {
+		panic(err)
+	}
+	in.Env.A, in.Env.B, in.Env.Yita = gp.A, gp.B, gp.Yita // what the contract will read
 	var fees0, fees1 [][2]uint64
 	var bal0, bal1, splitFee, splitSum uint64
 	var serr error
